@@ -85,7 +85,7 @@ fn check_tour(lab: &Lab, vehicle: usize, seq: &[Visit], departure: f64, report: 
             &ictx.solution.routes[0]
         };
         let eval_ctx = EvaluationContext { goal: &lab.problem.goal, job, leg_selection: &leg_selection, result_selector: &selector };
-        let scen = |pos: Value| json!({"vehicle": vehicle, "tour": visits_json(seq), "departure": departure, "job": j, "position": pos});
+        let scen = |pos: Value| json!({"vehicle": vehicle, "tour": visits_json(seq), "departure": departure, "job": j, "position": pos, "timedep": vt.timedep});
 
         // soundness at every concrete leg
         for p in 0..legs.max(1) {
@@ -100,7 +100,7 @@ fn check_tour(lab: &Lab, vehicle: usize, seq: &[Visit], departure: f64, report: 
                             let s = sim(&lab.tasks, vt, &new_seq, departure);
                             if !s.feasible {
                                 report.violation(Violation::new(
-                                    format!("unsound:{}", class_of(&s.why)),
+                                    format!("unsound:{}{}", class_of(&s.why), if vt.timedep { ":timedep" } else { "" }),
                                     format!("evaluator accepts {} at leg {p} of {:?}, but the simulation of {:?} says: {}", job_name(lab, j), names(lab, seq), names(lab, &new_seq), s.why),
                                     scen(json!(p)),
                                 ));
@@ -132,7 +132,7 @@ fn check_tour(lab: &Lab, vehicle: usize, seq: &[Visit], departure: f64, report: 
                     let s = sim(&lab.tasks, vt, &new_seq, departure);
                     if !s.feasible {
                         report.violation(Violation::new(
-                            format!("unsound:{}", class_of(&s.why)),
+                            format!("unsound:{}{}", class_of(&s.why), if vt.timedep { ":timedep" } else { "" }),
                             format!("evaluator (any position) puts {} into {:?} giving {:?}, simulation says: {}", job_name(lab, j), names(lab, seq), names(lab, &new_seq), s.why),
                             scen(json!("any")),
                         ));
@@ -160,8 +160,30 @@ fn check_tour(lab: &Lab, vehicle: usize, seq: &[Visit], departure: f64, report: 
             cnt.complete_checked += 1;
             if let (Some((p, pi, wi)), InsertionResult::Failure(f)) = (witness, &any) {
                 let last_leg_open = !vt.closed && p == seq.len();
+                // time-dependent routing: the library derives latest arrivals backwards with the travel time AT the latest arrival
+                // (recorded finding); the failure is attributed to it only when that estimate rejects EVERY feasible placement
+                // (a tour whose own arrivals lie behind the estimate makes the scan over the legs stop at the first leg)
+                let tour_behind_estimate = vt.timedep && {
+                    let s = sim(&lab.tasks, vt, seq, departure);
+                    (0..seq.len()).any(|k| backward_estimate_rejects(lab, vt, seq, k, &s))
+                };
+                let explained_by_estimate = vt.timedep
+                    && (tour_behind_estimate || (0..=seq.len()).all(|p| {
+                        lab.tasks[task].places.iter().enumerate().all(|(pi, pl)| {
+                            (0..pl.windows.len()).all(|wi| {
+                                let mut candidate = seq.to_vec();
+                                candidate.insert(p, Visit { task, place: pi, window: wi });
+                                let s = sim(&lab.tasks, vt, &candidate, departure);
+                                !s.feasible || backward_estimate_rejects(lab, vt, &candidate, p, &s)
+                            })
+                        })
+                    }));
                 report.violation(Violation::new(
-                    format!("incomplete:{}{}", if last_leg_open { "open-tour-last-leg" } else { "inner-leg" }, if lab.tasks[task].places.len() > 1 || lab.tasks[task].places[0].windows.len() > 1 { ":multi-window-job" } else { "" }),
+                    if explained_by_estimate {
+                        "incomplete:timedep:latest-arrival-estimate".to_string()
+                    } else {
+                        format!("incomplete:{}{}", if last_leg_open { "open-tour-last-leg" } else { "inner-leg" }, if lab.tasks[task].places.len() > 1 || lab.tasks[task].places[0].windows.len() > 1 { ":multi-window-job" } else { "" }) + if vt.timedep { ":timedep" } else { "" }
+                    },
                     format!(
                         "evaluator reports failure (code {}) for {} into {:?} on {}, but the simulation finds position {p} place {pi} window {wi} feasible",
                         f.constraint, lab.tasks[task].id, names(lab, seq), vt.id
@@ -171,6 +193,29 @@ fn check_tour(lab: &Lab, vehicle: usize, seq: &[Visit], departure: f64, report: 
             }
         }
     }
+}
+
+/// The library's backward pass: latest arrival of an activity = min(window end, latest arrival of the next one - travel time
+/// looked up AT that latest arrival - service). True when the activity after position `p` of `w` arrives later than that.
+fn backward_estimate_rejects(lab: &Lab, vt: &VehicleT, w: &[Visit], p: usize, s: &SimResult) -> bool {
+    let n = w.len();
+    let (mut next_latest, mut next_loc) = if vt.closed { (vt.end_latest, vt.end_loc) } else { (f64::MAX, 0) };
+    if vt.closed && s.end_arrival > next_latest {
+        return true;
+    }
+    // the chain is followed down to the inserted activity itself: the library derives the latest arrival at the target from
+    // the latest arrival at the next activity in the same way
+    for k in (p..n).rev() {
+        let pl = &lab.tasks[w[k].task].places[w[k].place];
+        let we = pl.windows[w[k].window].1;
+        let latest = if next_latest == f64::MAX { we } else { we.min(next_latest - travel(vt, pl.loc, next_loc, next_latest) - pl.service) };
+        if (k == p || k == p + 1) && s.arrivals[k] > latest {
+            return true;
+        }
+        next_latest = latest;
+        next_loc = pl.loc;
+    }
+    false
 }
 
 fn class_of(why: &str) -> &'static str {
@@ -286,10 +331,12 @@ pub fn run(ctx: &RunCtx) -> Report {
     let nveh = vehicles().len();
     // work items: (vehicle, chunk of sequences)
     let chunk = 200;
-    let chunks: Vec<(usize, usize)> = (0..nveh).flat_map(|v| (0..all.len().div_ceil(chunk)).map(move |c| (v, c))).collect();
+    // second pass: the same tours under time-dependent routing data (every leg which starts at TD_AT or later takes twice as long)
+    let nchunks = all.len().div_ceil(chunk);
+    let chunks: Vec<(usize, usize, bool)> = [false, true].into_iter().flat_map(|td| (0..nveh).flat_map(move |v| (0..nchunks).map(move |c| (v, c, td)))).collect();
     let parts = par_map(ctx.threads, chunks.len(), |ci| {
-        let (vehicle, c) = chunks[ci];
-        let lab = Lab::new(GoalKind::Cost);
+        let (vehicle, c, td) = chunks[ci];
+        let lab = if td { Lab::timedep(GoalKind::Cost) } else { Lab::new(GoalKind::Cost) };
         let mut r = Report::new("exploration");
         let mut cnt = Counters { evaluations: 0, successes: 0, failures: 0, complete_checked: 0 };
         let vt = lab.vehicles[vehicle].clone();
@@ -304,6 +351,9 @@ pub fn run(ctx: &RunCtx) -> Report {
                     continue;
                 }
                 r.add_count("tours_feasible", 1);
+                if td {
+                    r.add_count("tours_feasible_timedep", 1);
+                }
                 check_tour(&lab, vehicle, seq, departure, &mut r, &mut cnt);
                 if r.get_count("tours_feasible") % 97 == 1 {
                     r.sample(json!({"vehicle": vt.id, "tour": names(&lab, seq), "departure": departure}));
@@ -345,7 +395,7 @@ pub fn replay(_ctx: &RunCtx, scenario: &Value) -> Result<Vec<Violation>, String>
         let same = |v: &Violation| ["vehicle", "length", "stream", "job", "position"].iter().all(|k| v.scenario[*k] == scenario[*k]);
         return Ok(r.violations.into_iter().filter(same).collect());
     }
-    let lab = Lab::new(GoalKind::Cost);
+    let lab = if scenario["timedep"].as_bool().unwrap_or(false) { Lab::timedep(GoalKind::Cost) } else { Lab::new(GoalKind::Cost) };
     let vehicle = scenario["vehicle"].as_u64().ok_or("vehicle")? as usize;
     let seq = visits_from(&scenario["tour"]);
     let departure = scenario["departure"].as_f64().unwrap_or(0.);
